@@ -51,10 +51,12 @@ def race_run(v, groups, n):
     from .c05 import export
     layouts, _ = export()
     sdir = vflib.sub("scripts-race")
-    for g in groups[:2]:
+    # (+ G_mixed_eph: overlapping connected-UDP and TCP calls of ONE client on ephemeral ports - nothing serialises them)
+    rgroups = groups[:2] + ["G_mixed_eph"]
+    for g in rgroups:
         transport.generate(g, n, vflib.seed() + 99, sdir)
     allr = []
-    for g in groups[:2]:
+    for g in rgroups:
         _, _, races, _ = transport.rig(g, sdir, layouts, 2, 40, race=True, out=vflib.sub("race-" + g))
         allr += races
     # discovery + listener under the race detector
